@@ -235,13 +235,13 @@ func c12Matrix(c *fw.Case) {
 		case 20:
 			sql, feat = "SELECT rid, (SELECT `<-` FROM dual) AS x, (SELECT `<-` AS up FROM dual) AS y FROM t1", "item.marker"
 		case 21:
-			sql, feat = "WITH a AS (SELECT rid, (SELECT `<-` AS up FROM dual) AS x FROM t1) SELECT * FROM a", "item.marker"
+			sql, feat = "WITH a AS (SELECT rid, (SELECT `<-` AS up FROM dual) AS x, (SELECT (SELECT `<-.<-` AS up FROM dual) AS s2 FROM dual) AS g, (SELECT `'<-'` AS q FROM dual) AS y FROM t1) SELECT * FROM a", "item.marker"
 		case 22:
 			sql, feat = "WITH a AS (SELECT rid FROM t1), b AS (SELECT rid, (SELECT `<-` AS up FROM dual) AS x, `<-` FROM a) SELECT * FROM b", "item.marker"
 		case 17:
 			sql, feat = "WITH c AS (SELECT rid, n1 FROM t1) SELECT c FROM dual", "item.cte-by-name"
 		case 18:
-			sql, feat = "WITH c AS (SELECT rid FROM t1), d AS (SELECT 1 AS x FROM dual) SELECT c AS v, ARRAY(d, c) AS a, FUSE(d) FROM dual", "item.cte-by-name"
+			sql, feat = "WITH c AS (SELECT rid FROM t1), d AS (SELECT 1 AS x FROM dual), o AS (SELECT 2 AS y FROM dual) SELECT c AS v, ARRAY(d, c) AS a, FUSE(d), `{o, d, t1}` AS p FROM dual", "item.cte-by-name"
 		case 19:
 			sql, feat = "SELECT rid, FUSE((SELECT ASYNC.VBG(n1) AS z, AWAIT(ASYNC.VBG(s1)) AS zz FROM dual)), FUSE((SELECT ASYNC.VBG(rid) AS y FROM dual)) AS p FROM t1", "item.fuse-async"
 		case 15:
